@@ -2307,6 +2307,207 @@ example : transform ackTag { a := 5, s := [102, 105, 118, 101], b := [7, 8, 9] }
     transform ackTag { a := -7, s := sNilReply, b := [] } = .ret { a := 0, s := [], b := [], n := 0 } ∧
     transform ackTag { a := 1, s := sFail, b := [] } = .fail true := by decide
 
+/-! ### `GetList` leaves nobody out; the connection table across `Close` -/
+
+
+theorem walk_surj {n start j : Nat} (hn : 0 < n) (hj : j < n) :
+    (start + (j + n - start % n) % n) % n = j := by
+  have ha : start % n < n := Nat.mod_lt _ hn
+  rw [Nat.add_mod, Nat.mod_mod]
+  generalize start % n = a at *
+  rw [Nat.add_mod_mod]
+  have : a + (j + n - a) = j + n := by omega
+  rw [this, Nat.add_mod_right, Nat.mod_eq_of_lt hj]
+
+/-- **nobody is left out**: when the permutation covers the roster (as `rand.Perm` and the identity do) and
+`GetList` put fewer than `askNodes` nodes into the channel, then every node of the roster that is not
+ignored is in it — the only reasons not to be asked are being ignored and the limit `askNodes`.  (A walk
+that starts at `startNode` but does not wrap around — `nodes[startNode+perm[i]]` guarded by a length test —
+leaves the nodes before `startNode` out.) -/
+theorem c14_getlist_leaves_nobody_out (nodes : List Nat) (po : Option ParOpts) (rp : List Nat)
+    (hcov : ∀ i, i < nodes.length → i ∈ rp) :
+    let r := getList nodes po rp
+    (r.2.length : Int) < (getListParams nodes.length po).askNodes →
+    ∀ x ∈ nodes, x ∉ ignoreOf po → x ∈ r.2 := by
+  intro r hlt x hx hni
+  have hne : nodes ≠ [] := by intro h; rw [h] at hx; simp at hx
+  have hpos : 0 < nodes.length := List.length_pos_iff.mpr hne
+  have hlen : 1 ≤ (nodes.length : Int) := by omega
+  obtain ⟨h1, h2, h3, h4, h5, _⟩ := c14_getlist_numbers nodes.length po hlen
+  have hask : 0 < (getListParams nodes.length po).askNodes.toNat := by omega
+  have hr : r.2 = (((permOf nodes.length po rp).map (fun p => nodes.getD (((getListParams nodes.length po).startNode.toNat + p) % nodes.length) 0)).filter
+      (fun n => !(ignoreOf po).contains n)).take (getListParams nodes.length po).askNodes.toNat := by
+    have := collect_eq nodes (ignoreOf po) (getListParams nodes.length po).startNode.toNat
+      (getListParams nodes.length po).askNodes.toNat (permOf nodes.length po rp) [] (by simpa using hask)
+    simp only [List.nil_append] at this
+    rw [← this]
+    cases po <;> rfl
+  have hcov' : ∀ i, i < nodes.length → i ∈ permOf nodes.length po rp := by
+    intro i hi
+    unfold permOf
+    cases po with
+    | none => exact hcov i hi
+    | some o =>
+      simp only
+      split
+      · exact List.mem_range.mpr hi
+      · exact hcov i hi
+  -- the limit did not cut
+  have hnocut : r.2 = ((permOf nodes.length po rp).map (fun p => nodes.getD (((getListParams nodes.length po).startNode.toNat + p) % nodes.length) 0)).filter
+      (fun n => !(ignoreOf po).contains n) := by
+    rw [hr]
+    apply List.take_of_length_le
+    rw [hr, List.length_take] at hlt
+    omega
+  rw [hnocut, List.mem_filter]
+  refine ⟨?_, by simpa using hni⟩
+  obtain ⟨j, hj, rfl⟩ := List.getElem_of_mem hx
+  rw [List.mem_map]
+  refine ⟨(j + nodes.length - (getListParams nodes.length po).startNode.toNat % nodes.length) % nodes.length,
+    hcov' _ (Nat.mod_lt _ hpos), ?_⟩
+  simp only [walk_surj hpos hj]
+  rw [List.getD_eq_getElem?_getD, List.getElem?_eq_getElem hj]; rfl
+
+/-- non-vacuity: five nodes, two ignored, six asked for: the three others are all asked -/
+example : (getList [10, 11, 12, 13, 14] (some { ignore := [11, 13] }) [4, 2, 0, 1, 3]).2 = [14, 12, 10] ∧
+    (getListParams 5 (some { ignore := [11, 13] })).askNodes = 5 := by decide
+/-- **… also across `Close`**: any sequence of `Send`s and `Close`s — every reply handed back comes from the
+destination named, the table stays keyed, and right after a `Close` nothing is stored (the next `Send` to any
+destination dials) -/
+theorem c14_connection_table_with_close {K D : Type} [DecidableEq K] (key : D → K)
+    (hinj : ∀ a b, key a = key b → a = b) (keep : Bool) :
+    ∀ (ops : List (MOp D)) (c : MCl K D), c.Keyed key →
+      (mOps key keep c ops).1.Keyed key ∧
+      (∀ r ∈ (mOps key keep c ops).2, r.2 = none ∨ r.2 = some r.1) ∧
+      (∀ pre, ops = pre ++ [.close] → (mOps key keep c ops).1.conns = []) := by
+  intro ops
+  induction ops with
+  | nil =>
+    intro c hc
+    refine ⟨hc, by simp [mOps], fun pre h => ?_⟩
+    cases pre <;> simp at h
+  | cons o rest ih =>
+    intro c hc
+    cases o with
+    | send d ok =>
+      have hk := mSend_keyed key keep c d ok hc
+      obtain ⟨i1, i2, i3⟩ := ih _ hk
+      refine ⟨i1, ?_, fun pre h => ?_⟩
+      · intro r hr
+        simp only [mOps, List.mem_cons] at hr
+        rcases hr with rfl | hr
+        · have := c14_connection_table_reply_from_asked_destination key hinj keep [(d, ok)] c hc
+            (d, (mSend key keep c d ok).2) (by simp [mRun])
+          exact this
+        · exact i2 r hr
+      · cases pre with
+        | nil => simp at h
+        | cons p pre' =>
+          simp only [List.cons_append, List.cons.injEq] at h
+          simp only [mOps]
+          exact i3 pre' h.2
+    | close =>
+      have hk : (⟨[]⟩ : MCl K D).Keyed key := by intro e he; simp at he
+      obtain ⟨i1, i2, i3⟩ := ih _ hk
+      refine ⟨i1, i2, fun pre h => ?_⟩
+      cases pre with
+      | nil =>
+        simp only [List.nil_append, List.cons.injEq, true_and] at h
+        subst h; simp [mOps]
+      | cons p pre' =>
+        simp only [List.cons_append, List.cons.injEq] at h
+        simp only [mOps]
+        exact i3 pre' h.2
+
+example : (mOps (K := Nat) (D := Nat) id true {} [.send 0 true, .send 1 true, .close, .send 1 true]).1.conns = [(1, 1)] ∧
+    (mOps (K := Nat) (D := Nat) id true {} [.send 0 true, .send 1 true, .close, .send 1 true]).2 =
+      [(0, some 0), (1, some 1), (1, some 1)] := by decide
+
+/-! ### from the URL to the handler table -/
+
+theorem sep_prefix_eq {c : Char} : ∀ (a b rest : List Char), c ∉ a → c ∉ b → a ++ [c] <+: b ++ c :: rest → a = b
+  | [], [], _, _, _, _ => rfl
+  | [], y :: b, rest, _, hb, h => by
+    simp only [List.nil_append, List.cons_append, List.cons_prefix_cons] at h
+    exact absurd (h.1 ▸ List.mem_cons_self) hb
+  | x :: a, [], rest, ha, _, h => by
+    simp only [List.nil_append, List.cons_append, List.cons_prefix_cons] at h
+    exact absurd (h.1 ▸ List.mem_cons_self) ha
+  | x :: a, y :: b, rest, ha, hb, h => by
+    simp only [List.cons_append, List.cons_prefix_cons] at h
+    have := sep_prefix_eq a b rest (fun hm => ha (List.mem_cons_of_mem _ hm)) (fun hm => hb (List.mem_cons_of_mem _ hm)) h.2
+    rw [h.1, this]
+
+theorem pattern_prefix_iff (a svc path : List Char) (ha : '/' ∉ a) (hs : '/' ∉ svc) :
+    (pattern a).isPrefixOf (clientURL svc path) = true ↔ a = svc := by
+  rw [List.isPrefixOf_iff_prefix]
+  constructor
+  · intro h
+    simp only [pattern, clientURL, List.cons_append, List.cons_prefix_cons, true_and, List.append_assoc] at h
+    exact sep_prefix_eq a svc path ha hs (by simpa using h)
+  · intro h; subst h; exact List.prefix_append _ _
+
+theorem foldl_all_eq (svc : List Char) : ∀ (l : List (List Char)), (∀ x ∈ l, x = svc) →
+    ∀ b, (b = none ∨ b = some svc) → l.foldl longer b = (if l = [] then b else some svc)
+  | [], _, b, _ => rfl
+  | x :: l, h, b, hb => by
+    have hx : x = svc := h x List.mem_cons_self
+    subst hx
+    have hstep : longer b x = some x := by
+      rcases hb with rfl | rfl
+      · rfl
+      · simp [longer]
+    simp only [List.foldl_cons, hstep]
+    rw [foldl_all_eq x l (fun y hy => h y (List.mem_cons_of_mem _ hy)) (some x) (Or.inr rfl)]
+    simp
+
+/-- **the handler table that is asked is the one of the service named, under exactly the path named**: for
+every set of registered services whose names contain no `/`, every registered service `svc` and **every**
+path (any characters, `/` included): the URL the client builds is routed to `svc` and the key under which
+`svc`'s handler table is looked up is that path, byte for byte; a service that is not registered reaches
+the catch-all.  (`strings.TrimLeft` in place of `TrimPrefix`, a pattern without the final `/`, or the first
+path element only falsify it.) -/
+theorem c14_route_round_trip (services : List (List Char)) (svc path : List Char)
+    (hsl : ∀ s ∈ services, '/' ∉ s) (hs : '/' ∉ svc) :
+    (svc ∈ services → route services (clientURL svc path) = some (svc, path)) ∧
+    (svc ∉ services → route services (clientURL svc path) = none) := by
+  have hfil : ∀ x ∈ services.filter (fun s => (pattern s).isPrefixOf (clientURL svc path)), x = svc := by
+    intro x hx
+    rw [List.mem_filter] at hx
+    exact (pattern_prefix_iff x svc path (hsl x hx.1) hs).mp hx.2
+  constructor
+  · intro hm
+    have hne : services.filter (fun s => (pattern s).isPrefixOf (clientURL svc path)) ≠ [] := by
+      intro he
+      have : svc ∈ services.filter (fun s => (pattern s).isPrefixOf (clientURL svc path)) :=
+        List.mem_filter.mpr ⟨hm, (pattern_prefix_iff svc svc path hs hs).mpr rfl⟩
+      rw [he] at this; simp at this
+    have hmux : muxRoute services (clientURL svc path) = some svc := by
+      unfold muxRoute
+      rw [foldl_all_eq svc _ hfil none (Or.inl rfl), if_neg hne]
+    have htp : trimPrefix (clientURL svc path) (pattern svc) = path := by
+      unfold trimPrefix clientURL
+      rw [if_pos (List.isPrefixOf_iff_prefix.mpr (List.prefix_append _ _))]
+      simp
+    unfold route
+    rw [hmux]
+    simp only [Option.map_some, htp]
+  · intro hm
+    have he : services.filter (fun s => (pattern s).isPrefixOf (clientURL svc path)) = [] := by
+      rw [List.filter_eq_nil_iff]
+      intro x hx hp
+      have := (pattern_prefix_iff x svc path (hsl x hx) hs).mp hp
+      exact hm (this ▸ hx)
+    simp [route, muxRoute, he]
+
+/-- what `TrimLeft` would do with the paths of the correspondence run: it eats into the path -/
+theorem c14_route_trimleft_eats_the_path :
+    trimLeft "/VerifC14/C14Echo".toList "/VerifC14/".toList = "Echo".toList ∧
+    trimPrefix "/VerifC14/C14Echo".toList "/VerifC14/".toList = "C14Echo".toList ∧
+    route ["VerifC14".toList, "VerifC15".toList] "/VerifC14/C14Echo".toList = some ("VerifC14".toList, "C14Echo".toList) ∧
+    route ["VerifC14".toList, "VerifC15".toList] "/VerifC14NoSuchService/C14Echo".toList = none ∧
+    route ["VerifC14".toList] "/VerifC14/a/b//c".toList = some ("VerifC14".toList, "a/b//c".toList) := by decide
+
 /-! ### the code regions the model stands for
 Regenerated from /repo's source on every run (`harness/cmd/astfacts` → `OnetVerif/Shapes.lean`): the
 calls that matter for synchronisation and data flow, the lock regions and (for decision logic) the
